@@ -209,7 +209,7 @@ def gen_structure(rng, tier, focus):
             ops.append(['drop_res', c, rng.randrange(10)])
             lengths[c] -= 1
         if rng.random() < 0.2 and c not in renumbered:
-            ops.append(['renumber', c, rng.choice([1, 1, 5, 100, 9995]), rng.randrange(1, 6), rng.choice([0, 0, 3, 20])])
+            ops.append(['renumber', c, rng.choice([1, 1, 0, -3, 5, 100, 9995]), rng.randrange(1, 6), rng.choice([0, 0, 3, 20])])
         if rng.random() < 0.04:
             ops.append(['icode', c, rng.randrange(10)])
         if focus in ('C17', 'C03', 'C11') and rng.random() < 0.10:
@@ -302,8 +302,8 @@ def gen_argv(rng, tier, focus, lengths):
         argv += ['-cys', rng.choice(['auto', 'none', '0.3', '0.22'])]
     if rng.random() < 0.1:
         argv.append('-nt')
-    if rng.random() < 0.15:
-        argv += ['-resid', rng.choice(['input', 'mol'])]
+    if rng.random() < (0.3 if focus == 'C03' else 0.15):
+        argv += ['-resid', rng.choice(['input', 'input', 'mol'])]
     if rng.random() < 0.1:
         argv += ['-name', rng.choice(['prot', 'x', 'molecule'])]
     if rng.random() < 0.08:
@@ -1112,6 +1112,7 @@ def c17_library(seed, n):
     mini = _MiniChild()
     oracle = ssoracle.Oracle(mini)
     prot = ['ALA', 'GLY', 'LYS', 'TRP', 'SER', 'GLU']
+    reuse, reuse_seq = None, None
     for i in range(n):
         rng = core.sub_rng(seed, 'c17lib', i)
         system = System()
@@ -1159,7 +1160,13 @@ def c17_library(seed, n):
             seq = seq[:nseq]
         else:
             seq = ''.join(rng.choice('HHHGIEBTSC') for _ in range(nseq))
-        proc = AnnotateResidues(attribute='aasecstruct', sequence=seq, molecule_selector=selectors.is_protein)
+        if reuse is not None and rng.random() < 0.5:
+            proc = reuse                      # the same processor object applied to another system (state between calls)
+            seq = reuse_seq
+            mini.stats.probes['ss_processor_reused'] += 1
+        else:
+            proc = AnnotateResidues(attribute='aasecstruct', sequence=seq, molecule_selector=selectors.is_protein)
+        reuse, reuse_seq = proc, seq
         oracle.begin_annotate_residues(proc, system)
         raised = None
         try:
